@@ -60,7 +60,7 @@ func tryB(f func()) *hx.PanicInfo {
 
 func TestMain(m *testing.M) {
 	R.Require("ber_mixed_forms", "signed_ber_mixed_forms", "wrapped_key_c3_altered", "recipients>1", "gcm", "descbc", "c1c2c3", "c1c3c2", "rsa_recipient", "non_recipient", "wrong_key", "sm2_signed_attrs", "sm2_signed_noattrs", "rsa_signed_library", "detached",
-		"mut:content", "mut:attr", "mut:digest_attr", "mut:signature", "mut:other_key_cert", "p12_pwd_nonascii", "p12_wrong_pwd", "p12_corrupt", "p12_cacerts", "p12_long_pwd", "signers>1", "p12_mac_removed_then_modified", "rsa_signer_form:0", "rsa_signer_form:1", "rsa_signer_form:2", "rsa_signer_form:3")
+		"mut:content", "mut:attr", "mut:digest_attr", "mut:signature", "mut:other_key_cert", "p12_pwd_nonascii", "p12_wrong_pwd", "p12_corrupt", "p12_cacerts", "p12_long_pwd", "signers>1", "p12_mac_removed_then_modified", "p12_key_y_ends_in_01..08", "rsa_signer_form:0", "rsa_signer_form:1", "rsa_signer_form:2", "rsa_signer_form:3")
 	hx.Main(m, R)
 }
 
@@ -1066,6 +1066,23 @@ func TestC17_PKCS12(t *testing.T) {
 			}
 		} else {
 			k := gen.KeyPair(hx.Root()).Draw(t, "key")
+			if tgt := gen.Uniform(t, "ylast", 12); tgt >= 1 && tgt <= 8 {
+				// the encrypted key structure ends with the public point: keys whose Y ends in a byte 01..08 make the
+				// plaintext end in a value that is also a possible padding length of the 8-byte block cipher
+				g1 := cv.BaseMul(big.NewInt(1))
+				pt, d := k.Pub, new(big.Int).Set(k.D)
+				lim := new(big.Int).Sub(cv.N, big.NewInt(3))
+				for i := 0; i < 6000 && d.Cmp(lim) < 0; i++ {
+					_, y := pt.Affine()
+					if yb := y.Bytes(); len(yb) > 0 && int(yb[len(yb)-1]) == tgt {
+						k = gen.Key{D: d, Pub: pt, Class: "y_ends_in_pad_value"}
+						R.Class("p12_key_y_ends_in_01..08")
+						break
+					}
+					pt = cv.Add(pt, g1)
+					d = new(big.Int).Add(d, big.NewInt(1))
+				}
+			}
 			priv, cert = sm2x.Priv(k), sm2Cert(t, k, "p12 owner", 77)
 			wantD = k.D
 			wantX, wantY = k.Pub.Affine()
